@@ -20,6 +20,7 @@ pub fn prop() -> HistProp {
         nontrivial,
         quick_cases: 20000,
         thorough_cases: 400000,
+        pressure_cases: (6000, 120000),
         assumptions: vec!["no removal/rename of an object with a live handle, no two handles on one file (documented precondition)", "'.' and '..' are not generated as path components", "rename onto the same entry is a successful no-op (explicit branch in the code and docs)"],
     }
 }
@@ -107,6 +108,11 @@ pub fn run(tier: Tier, seed: u64) -> i32 {
     rep.add(b);
     if !rep.failed() {
         rep.add(hist::random_block(&hp, "random_histories", seed, tier.pick(hp.quick_cases, hp.thorough_cases)));
+    }
+    if !rep.failed() {
+        if let Some(b) = hist::pressure_block(&hp, seed, tier) {
+            rep.add(b);
+        }
     }
     if !rep.failed() && tier == Tier::Thorough {
         rep.add(run::fuzz_block("ops", 400_000, seed, 1024));
